@@ -2,7 +2,7 @@
 # usage: tools/runall.sh [quick|thorough] [ids...]  -- runs the checks on the current tree, one line per check
 tier=${1:-quick}; shift
 ids="$@"; [ -z "$ids" ] && ids=$(python3 -c "import json;print(' '.join(k for k,v in json.load(open('/verif/props.json')).items() if v.get('claimed')))")
-cd /verif; rc=0
+cd "$(dirname "$0")/.."; rc=0
 for id in $ids; do
   out=$(./check $id --tier $tier 2>&1); r=$?
   echo "$id rc=$r $(echo "$out" | grep -a '^property=' | tail -1)"
